@@ -168,3 +168,90 @@ func runTTLSnap(toks []string) Result {
 	}
 	return Result{Obs: "linearizable # ", Oracle: "ok", Tags: tags}
 }
+
+// case "snap start2 <clients> <incrs> 0 <seed>": a started example server on which the application calls Start a second
+// time (which fails: the ports are its own, and leaves the running server as it is); then <clients> clients send <incrs>
+// INCRs each on one key at the same time: the key ends at clients x incrs, every reply was given once.
+func runStart2Snap(toks []string) Result {
+	clients, _ := strconv.Atoi(toks[2])
+	incrs, _ := strconv.Atoi(toks[3])
+	tags := []string{"nt", "snap-start2"}
+	fail := func(msg string) Result { return Result{Obs: "not-linearizable # ", Oracle: "fail:" + msg, Tags: tags} }
+	srv := exserver.NewServer()
+	port := freePort()
+	srv.SetPort(port)
+	if err := srv.Start(); err != nil {
+		return fail("start: " + err.Error())
+	}
+	defer srv.Stop()
+	if err := srv.Start(); err == nil {
+		return fail("a second Start on the running server did not fail")
+	}
+	var wg sync.WaitGroup
+	var mu sync.Mutex
+	seen := map[string]int{}
+	var werr string
+	for cl := 0; cl < clients; cl++ {
+		wg.Add(1)
+		go func() {
+			defer wg.Done()
+			c, err := net.DialTimeout("tcp", "127.0.0.1:"+strconv.Itoa(port), 2*time.Second)
+			if err != nil {
+				mu.Lock()
+				werr = err.Error()
+				mu.Unlock()
+				return
+			}
+			defer c.Close()
+			c.SetDeadline(time.Now().Add(30 * time.Second))
+			rd := bufio.NewReaderSize(c, 1<<16)
+			for lo := 0; lo < incrs; lo += 100 {
+				var out []byte
+				n := 0
+				for i := lo; i < incrs && i < lo+100; i++ {
+					out = append(out, reqS("INCR", "counter")...)
+					n++
+				}
+				c.Write(out)
+				local := make([]string, 0, n)
+				for k := 0; k < n; k++ {
+					rep, err := readReply(rd)
+					if err != nil {
+						mu.Lock()
+						werr = "INCR: " + err.Error()
+						mu.Unlock()
+						return
+					}
+					local = append(local, string(rep))
+				}
+				mu.Lock()
+				for _, r := range local {
+					seen[r]++
+				}
+				mu.Unlock()
+			}
+		}()
+	}
+	wg.Wait()
+	if werr != "" {
+		return fail("a client failed: " + werr)
+	}
+	for r, k := range seen {
+		if k > 1 {
+			return fail(fmt.Sprintf("%d INCRs were answered %q: two of them read the same value (lost update)", k, r))
+		}
+	}
+	c, err := net.DialTimeout("tcp", "127.0.0.1:"+strconv.Itoa(port), 2*time.Second)
+	if err != nil {
+		return fail("dial: " + err.Error())
+	}
+	defer c.Close()
+	c.SetDeadline(time.Now().Add(5 * time.Second))
+	c.Write(reqS("GET", "counter"))
+	rep, _ := readReply(bufio.NewReader(c))
+	want := strconv.Itoa(clients * incrs)
+	if string(rep) != fmt.Sprintf("$%d\r\n%s\r\n", len(want), want) {
+		return fail(fmt.Sprintf("%d concurrent INCRs gave %q, want %s", clients*incrs, rep, want))
+	}
+	return Result{Obs: "linearizable # ", Oracle: "ok", Tags: tags}
+}
